@@ -158,6 +158,8 @@ def _outcomes(sim):
 
 
 def run_exec(case, res):
+    # (a process that exits by itself while its own launch is still in progress counts as
+    # "already finished" for a request recorded before the spawn: see execsim.judge)
     sim = execsim.run_schedule(case)
     seen = set()
     for p, sig, msg in sim.problems:
